@@ -217,7 +217,7 @@ def verdicts(c, results, what):
 
 
 def main():
-    c = Check(PID, "partial")
+    c = Check(PID, "translation_validation")
     c.cov["rule"] = ("corpus = .py files of the CPython stdlib and of /venv site-packages that ast.parse accepts, that use no Scenic reserved word, "
                      "no class-level annotation (Scenic property syntax) and no `@` operator (Scenic vector syntax); quick: a seeded sample is scanned with CPython and ~300 files are chosen "
                      "greedily so that every syntactic feature (match, walrus, f-string conversions, star calls, decorators, classes without bases, "
@@ -294,7 +294,7 @@ def main():
     c.cov["scan_wall_s"] = round(time.time() - t_start, 1)
     size_of = {r["path"]: r["size"] for r in chosen}
     alljobs = sorted(jobs + variants, key=lambda j: (size_of[j["path"]], j["id"]))
-    res = par("compare", alljobs, "jobs", dict(reserved=reserved, cpu_budget=(70 if quick else 2000)))
+    res = par("compare", alljobs, "jobs", dict(reserved=reserved, cpu_budget=(50 if quick else 2000)))
     byid = {j["id"]: j for j in jobs + variants}
     for r in res:
         j = byid[r["id"]]
